@@ -316,12 +316,50 @@ Proof.
 Qed.
 
 (* ================================================================ amalgamate: joining pieces *)
+(* a pointer array of n + 1 entries passes through the zero-padded copy of
+   amalgamate_csr_to_x unchanged when n is the row count announced *)
+Lemma amalgamate_ptr_id (P : list nat) n :
+  length P = S n ->
+  firstn n (removelast P ++ repeat 0 (n - length (removelast P))) ++ [last P 0] = P.
+Proof.
+  intros HL. assert (HP : P <> []) by (destruct P; [discriminate | discriminate]).
+  pose proof (app_removelast_last 0 HP) as E.
+  assert (HB : length (removelast P) = n).
+  { apply (f_equal (@length nat)) in E. rewrite app_length in E. cbn in E. lia. }
+  rewrite HB.
+  rewrite Nat.sub_diag. cbn [repeat]. rewrite app_nil_r.
+  rewrite <- HB at 1. rewrite firstn_all. symmetry. exact E.
+Qed.
+
+(* no piece is clipped when all rows fit *)
+Lemma clipped_piece_fits N : forall ps pos,
+  pos + sum_list (map (fun p => length (ptr p) - 1) ps) <= N -> clipped_piece N pos ps = false.
+Proof.
+  induction ps as [|p t IH]; intros pos H; [reflexivity|]. cbn [clipped_piece].
+  cbn [map] in H. unfold sum_list in H. cbn [fold_right] in H. fold (sum_list (map (fun p => length (ptr p) - 1) t)) in H.
+  rewrite IH by lia.
+  replace (N <? pos + (length (ptr p) - 1)) with false by (symmetry; apply Nat.ltb_ge; lia).
+  rewrite andb_false_r. reflexivity.
+Qed.
+
+Lemma of_rows_total Rs :
+  sum_list (map (fun p => length (ptr p) - 1) (map of_rows Rs)) = length (concat Rs).
+Proof.
+  unfold sum_list. induction Rs as [|R t IH]; [reflexivity|]. cbn [map fold_right concat].
+  rewrite app_length, IH. f_equal. unfold of_rows. cbn [ptr length].
+  rewrite cumsum_length, map_length. lia.
+Qed.
+
 Lemma amalgamate_csr_rows Rs :
   Forall (Forall row_ok) Rs ->
   amalgamate_csr (map of_rows Rs) (length (concat Rs)) = Ok (of_rows (concat Rs)).
 Proof.
-  intros H. unfold amalgamate_csr. rewrite merge_csr_rows by exact H. cbn [bind].
-  unfold of_rows at 1. cbn [ptr length]. rewrite cumsum_length, map_length, Nat.eqb_refl. reflexivity.
+  intros H. unfold amalgamate_csr. rewrite merge_csr_rows by exact H. cbn [bind]. cbv zeta.
+  rewrite clipped_piece_fits by (rewrite of_rows_total; lia).
+  assert (HL : length (ptr (of_rows (concat Rs))) = S (length (concat Rs))).
+  { unfold of_rows. cbn [ptr length]. rewrite cumsum_length, map_length. reflexivity. }
+  rewrite (amalgamate_ptr_id _ _ HL).
+  destruct (of_rows (concat Rs)); reflexivity.
 Qed.
 
 Definition rows_inv (nc : nat) (R : list srow) : Prop :=
